@@ -11,7 +11,7 @@ if ! git -C "$WT" apply "$PATCH"; then echo "patch does not apply"; git -C /repo
 cd /verif
 for pid in "$@"; do
   echo "=== $pid against $PATCH"
-  VERIF_REPO="$WT" ./check "$pid" --tier "${TIER:-quick}" 2>&1 | tail -${TAIL:-12}
+  VERIF_EVIDENCE_DIR="$WT/.verif_evidence" VERIF_REPO="$WT" ./check "$pid" --tier "${TIER:-quick}" 2>&1 | tail -${TAIL:-12}
   echo "rc=${PIPESTATUS[0]}"
 done
 git -C /repo worktree remove --force "$WT"
